@@ -197,7 +197,7 @@ func hbGet(h *HintBuffer, kh uint64, key string) *HintItem {
 //@   ensures forall(0, h.num, func(i int) bool { return hbIs(h.items[i], keyhash, key) ==> h.items[i] == it })   // at most one slot per (hash, key)
 
 //@ func (h *HintBuffer) Set
-//@   props C13 C14
+//@   props C13 C14 C02
 //@   ints math
 //@   requires hbWF(h) && it != nil && Conf != nil && 0 <= Conf.SplitCap
 //@   requires uint64(it.Pos.Offset)+uint64(recSize) < 1<<32
@@ -211,6 +211,9 @@ func hbGet(h *HintBuffer, kh uint64, key string) *HintItem {
 //@   ensures result0 ==> forall(0, old(h.num), func(i int) bool { return !old(hbIs(h.items[i], it.Keyhash, it.Key)) ==> h.items[i] == old(h.items[i]) })
 //@   ensures result0 && old(exists(0, h.num, func(i int) bool { return hbIs(h.items[i], it.Keyhash, it.Key) })) ==> h.num == old(h.num)
 //@   ensures result0 && !old(exists(0, h.num, func(i int) bool { return hbIs(h.items[i], it.Keyhash, it.Key) })) ==> h.num == old(h.num)+1 && h.items[old(h.num)] == it
+//@   ensures h.maxoffset >= old(h.maxoffset)      // C02/C14: maxoffset is the prefix of the data file this split covers (its recorded data size)
+//@   ensures result0 ==> h.maxoffset >= it.Pos.Offset+recSize && (h.maxoffset == old(h.maxoffset) || h.maxoffset == it.Pos.Offset+recSize)      // an accepted record is covered up to its end
+//@   ensures !result0 ==> h.maxoffset == old(h.maxoffset) || h.maxoffset == it.Pos.Offset      // a record refused by a full split is not covered: the rescan after a restart must start at it
 //@   ensures !result0 ==> h.num == old(h.num) && forall(0, h.num, func(i int) bool { return h.items[i] == old(h.items[i]) })
 //@   ensures !result0 ==> !old(exists(0, h.num, func(i int) bool { return hbIs(h.items[i], it.Keyhash, it.Key) }))
 //@   ensures h.maxoffset >= old(h.maxoffset) && (result0 ==> h.maxoffset >= it.Pos.Offset+recSize)
